@@ -59,13 +59,32 @@ def search(ctx):
                         why, cls = 'genhkl_all differs between RNG states / by name vs by number', 'rng'
             except Exception as e:
                 why, cls = 'genhkl_all raised %s: %s' % (type(e).__name__, e), 'exc'
-            ctx.count(('all', no, ch, k), hist='search:%s:%s' % (s.crystal_system, 'oblique' if HC.oblique(case) else 'orthogonal metric'),
+            ctx.count(('all', no, ch, k), hist='search:%s:%s%s' % (s.crystal_system, 'oblique' if HC.oblique(case) else 'orthogonal metric', (':' + case['kind']) if case.get('kind') else ''),
                       sample={'sgno': no, 'cell_choice': ch, 'cell': case['cell'], 'sintlmin': case['lo'], 'sintlmax': case['hi'], 'expected': len(exp)} if no == 62 else None)
             if why and (cls, s.crystal_system if cls == 'F6' else no) not in seen:
                 seen.add((cls, s.crystal_system if cls == 'F6' else no))
                 fails.append({'sgno': no, 'cell_choice': ch, 'name': s.name, 'cell': case['cell'], 'sintlmin': case['lo'], 'sintlmax': case['hi'],
                               'module': mod.__name__, 'class': cls, 'what': why, 'replay': '%s.genhkl_all(%r, %r, %r, sgno=%d, cell_choice=%r): %s' % (
                                   mod.__name__, case['cell'], case['lo'], case['hi'], no, ch, why)})
+        # sintlmin exclusive / sintlmax inclusive at a bound that is the module's own sintl of a traversal point (both modules)
+        for kb, (no, s, K, cell, h0) in enumerate(HC.boundary_cases(ctx)):
+            for mod in (tools, laue):
+                why = None
+                try:
+                    b = float(mod.sintl(cell, np.array(h0)))
+                    inc = set(HC.rows_of(mod.genhkl_all(cell, 0.0, b, sgno=no)))
+                    exc = set(HC.rows_of(mod.genhkl_all(cell, b, 1.4 * b, sgno=no)))
+                    if tuple(h0) not in inc:
+                        why = 'sintlmax is not inclusive: %r missing with sintlmax = its own sintl' % (list(h0),)
+                    elif tuple(h0) in exc:
+                        why = 'sintlmin is not exclusive: %r listed with sintlmin = its own sintl' % (list(h0),)
+                except Exception as e:
+                    why = 'raised %s: %s' % (type(e).__name__, e)
+                ctx.count(('bound', no, kb, mod.__name__), hist='search:boundary:%s' % s.crystal_system)
+                if why and ('bound', mod.__name__) not in seen:
+                    seen.add(('bound', mod.__name__))
+                    fails.append({'sgno': no, 'cell_choice': 'standard', 'name': s.name, 'cell': cell, 'hkl': list(h0), 'module': mod.__name__, 'class': 'boundary',
+                                  'what': why, 'replay': '%s.genhkl_all boundary at sintl(%r), sgno=%d, cell=%r: %s' % (mod.__name__, list(h0), no, cell, why)})
         # R-centred groups: hexagonal and rhombohedral settings give the same reflections under the obverse transformation
         T = np.array([[2, 1, 1], [-1, 1, 1], [-1, -2, 1]]) / 3.0        # a_r = T^t-ish: h_hex = h_rh . M
         Mrh2hex = np.array([[1, -1, 0], [0, 1, -1], [1, 1, 1]])            # rows: a_h = a_r - b_r, b_h = b_r - c_r, c_h = a_r + b_r + c_r (obverse)
